@@ -99,8 +99,8 @@ avars == <<text, st, hist>>
 
 Texts == UNION {[1..k -> Sym] : k \in 0..MaxLen}
 
-LitChars == {97, 120}                       \* literal('a'), literal('x')
-CSets == {<<97, 32>>, <<10, 9>>}            \* char_set{'a',' '}, char_set{'\n','\t'}
+LitChars == {97}                 \* literal('a'): both outcomes occur over the alphabet
+CSets == {<<10, 9>>}             \* char_set{'\n','\t'}: both outcomes occur
 
 AInit ==
   /\ text \in Texts
